@@ -15,7 +15,24 @@ pub fn digest_line(seed: u64, i: u64) -> String {
     let block = *rng.pick(&[32usize, 64, 100, 192, 256, 576, 1024, 4096]);
     let len = (block * rng.urange(0, 3) + rng.usize_below(block)).min(24_000 / channels);
     let rate = gen::pick_rate(&mut rng);
-    let audio = Arc::new(gen::gen_audio(&mut rng, channels, bps, rate, len));
+    // a few long streams (> 1024 frames: multi-byte frame numbers, late extremes of the frame
+    // sizes): the serial and the parallel path compute frame sizes differently
+    let many = i % 37 == 5;
+    let (channels, block, len) = if many { (1 + (i % 2) as usize, 32, 32 * rng.urange(1040, 2100) + rng.usize_below(32)) } else { (channels, block, len) };
+    let mut audio = gen::gen_audio(&mut rng, channels, bps, rate, len);
+    if many {
+        let up = rng.flip();
+        let full = gen::smax(bps) as f64;
+        for t in 0..len {
+            let pos = t as f64 / len as f64;
+            let env = if up { pos } else { 1.0 - pos };
+            for c in 0..channels {
+                audio.samples[t * channels + c] = (full * env * env * (rng.f64() * 2.0 - 1.0)) as i32;
+            }
+        }
+        audio.recipe = format!("ramp_{}_noise", if up { "up" } else { "down" });
+    }
+    let audio = Arc::new(audio);
     let mut cfg = gen::gen_config(&mut rng, &ConfigOpts::default());
     cfg.multithread = i % 2 == 0;
     cfg.block_size = block;
